@@ -185,7 +185,8 @@ _PRE_SOLVER_EXC = ("IntegerVariableError", "NonLinearError", "NoObjectiveError")
 
 def _relax_warnings(rec):
     out = []
-    for cat, text in rec.get("warn", []):
+    for w in rec.get("warn", []):
+        cat, text = w[0], w[1]
         if cat == "UserWarning" and "integer/binary" in text:
             i, j = text.find("["), text.rfind("] have")
             out.append(text[i + 1 : j] if 0 <= i < j else "")
